@@ -66,6 +66,10 @@ checks = {
  "C12": dict(cat="exploration", tech="differential monitor (random operation chains over emulated.Field mirrored in big.Int, every intermediate tapped through a hint; test engine + compiled r1cs/scs) + adversarial-execution monitor (lying mulHint/polyMvHint/Div/Inverse/Sqrt/subPadding hints incl. the best-effort carry-solved cheat; commitment = hash)",
    text="22 parameter sets (13 built-in, 9 custom incl. one limb, non-prime, wider than native), chains of 10-200 operations driving overflow to the reduction thresholds, boundary chains, variable-modulus ops; ~4.5k must-reject cheats per quick run. Built by a sub-agent (7/7 mutants caught), found 10 defect classes: 8 repaired by fix commits, 2 open known findings (carry limbs not range checked = soundness, confirmed with verifying Groth16/PLONK proofs of a false product).",
    note="define-time panics are counted as robustness observations, not violations; chains route around repaired defect sites only where still needed", ref="§3 C12"),
+
+ "C16": dict(cat="exploration", tech="differential monitor against big.Int group laws / textbook ECDSA, EdDSA, ecrecover (self-checked against gnark-crypto and crypto/ecdsa) in killable worker processes (test engine; compiled sample) + adversarial-execution monitor (lying GLV / fake-GLV / half-GCD decomposition and result hints incl. high-limb forgeries; residue-witness hint)",
+   text="emulated short-Weierstrass on 6-7 curves (Add/AddUnified/Double/ScalarMul/ScalarMulBase/JointScalarMulBase/MSM, with and without complete arithmetic), native twisted Edwards on 8 curves, 2-chain G1/G2, all five pairing packages, ECDSA/EdDSA, EVM precompiles; documented preconditions give no verdict. Built by a sub-agent (5/5 mutants caught). Found 37 defect signatures: 13 repaired by 7 fix commits, 24 open known findings (5 soundness breaks incl. a forged P-256 ECDSA signature accepted by the compiled circuit, 1 non-terminating hint in gnark-crypto, 18 completeness classes on edge scalars).",
+   note="a decomposition-hint screen keeps non-terminating scalars out of the pool (3 confirmed under a watchdog); emulated pairings are few in quick (20-120 s each)", ref="§3 C16"),
 }
 pending = {}
 for i in range(1,21):
